@@ -386,6 +386,9 @@ type kind struct {
 	Small   bool   // part of the reduced alphabet
 	MinPos  int
 	mod     func(it *itemSpec, prev []itemSpec)
+	// header-byte part (hdrbytes_test.go)
+	Either bool   // the statement leaves the item's acceptability open: accepted and refused (then for Primary) are both judged in full
+	Class  string // coarser name of the cause for observed_verdicts_by_first_cause ("" = the kind's name)
 }
 
 func b64n(n int) string { return base64.StdEncoding.EncodeToString([]byte(strings.Repeat("p", n))) }
